@@ -581,6 +581,13 @@ func compatibleRows(r1, r2 table.Row) bool {
 			}
 			continue
 		}
+		if c1.P != nil && c2.P != nil {
+			// Time anchors are compared as instants, regardless of their time zone.
+			if c1.P.UUID().String() != c2.P.UUID().String() {
+				return false
+			}
+			continue
+		}
 		if !reflect.DeepEqual(c1, c2) {
 			return false
 		}
